@@ -27,7 +27,7 @@ import operator
 
 import numpy as _np   # used only to compute result *shapes* of indexing / broadcasting on tiny boolean arrays
 
-from .alg import UNKNOWN, UnknownTruth
+from .alg import UNKNOWN, UnknownTruth, is_unknown
 from .cfg import ENTRY, RETURN, cfg_of
 from .domain import BaseDomain, Opaque, TypeModel
 from .interp import (ClassRef, ExcClass, ExcValue, FuncRef, Instance, Interp, ModelError, ModuleRef, NeedChoice,
@@ -364,6 +364,9 @@ class DescDomain(BaseDomain):
         t["any"], t["all"] = any_, all_
 
         def allclose(a, b, *x, **k):
+            for p, other in ((a, b), (b, a)):
+                if isinstance(p, Pos) and isinstance(other, (int, float)) and not isinstance(other, bool) and other <= 0:
+                    return False            # a strictly positive quantity (norm of generic entries) is away from 0 by a margin
             for arr, other in ((a, b), (b, a)):
                 if isinstance(arr, ArrDesc) and isinstance(other, (int, float)) and not isinstance(other, bool):
                     if arr.val == "zero":
@@ -384,6 +387,8 @@ class DescDomain(BaseDomain):
             if isinstance(r, bool) and isinstance(a if isinstance(a, ArrDesc) else b, ArrDesc):
                 arr = a if isinstance(a, ArrDesc) else b
                 return A("bool", arr.shape, val="true" if r else "false")
+            if isinstance(r, bool) and not isinstance(a, ArrDesc) and not isinstance(b, ArrDesc):
+                return r                    # two scalars
             return Unk("np.isclose")
         t["isclose"] = isclose
 
@@ -799,6 +804,12 @@ class DescDomain(BaseDomain):
             if attr in obj.table:
                 return obj.table[attr]
             return Unk(f"{obj.name}.{attr}")
+        if isinstance(obj, dict) and attr == "get":
+            def dict_get(key, default=None):
+                if is_unknown(key) or isinstance(key, Unk):
+                    return self._dict_unknown_key(interp, obj, key, node, missing=(default,))
+                return obj.get(key, default)
+            return dict_get
         if isinstance(obj, DType):
             return Unk(f"dtype.{attr}")
         if isinstance(obj, TypeModel):
@@ -899,11 +910,28 @@ class DescDomain(BaseDomain):
                 return Unk("element")
             fancy = any(isinstance(x, list) for x in (idx if isinstance(idx, tuple) else (idx,)))
             return obj.fresh(shape=sh) if fancy else obj.view(sh)
+        if isinstance(obj, dict) and (is_unknown(idx) or isinstance(idx, Unk)):
+            return self._dict_unknown_key(interp, obj, idx, node, missing=None)
         if isinstance(idx, Unk) or (isinstance(idx, slice) and any(isinstance(x, Unk) for x in (idx.start, idx.stop, idx.step))):
             return Unk("item")
+        if is_unknown(idx):
+            return Unk("item at a data-dependent index")
         if isinstance(obj, (list, tuple, str, dict, range)):
             return obj[idx]
         raise Unsupported(f"subscript of {type(obj).__name__}")
+
+    def _dict_unknown_key(self, interp, d, key, node, missing):
+        """d[key] / d.get(key) for a key the descriptor does not decide.  A KeyError is predicted only for a concrete
+        missing key, never here.  A truth-valued key into a dict that has both True and False is resolved like any other
+        data-dependent condition (explored both ways or interpretation stops - never guessed); otherwise the result is
+        the common value if all values agree, else unknown."""
+        if is_unknown(key) and True in d and False in d:
+            return d[bool(interp.truth(key, node))]
+        vals = list(d.values()) + ([] if missing is None else [missing[0]])
+        if vals and all(v is vals[0] or (type(v) is type(vals[0]) and isinstance(v, (int, float, str, bool)) and v == vals[0])
+                        for v in vals):
+            return vals[0]
+        return Unk("dict value at a data-dependent key")
 
     def setitem(self, interp, obj, idx, v, node):
         if isinstance(obj, ArrDesc):
